@@ -32,7 +32,6 @@ import (
 	"github.com/goplus/xgo/ast/togo"
 )
 
-
 // header: an independent deep copy of a declaration keeping only what a header is
 func header(v reflect.Value) reflect.Value {
 	switch v.Kind() {
